@@ -88,10 +88,50 @@ def fragOkB (s : Schema) (q : Query) (o : Options) (ty : TypeId) (g : Nat) : Boo
 def spreadOkB (s : Schema) (q : Query) (o : Options) (ty : TypeId) (sub : List Sel) (g : Nat) : Bool :=
   fragOkB s q o ty g && (deepKeys s (fragSels q g)).all (fun k => !(fieldKeys s sub).contains k)
 
-/-- conditions at an abstract position: those of `absOk`; every spread `spreadOkA` (part (a)) or `spreadOkB`
+/-- `absOk` without "at most one inline fragment per possible type" (several inline fragments on one type contribute to one
+    variant struct; `varKeys` below keeps their keys apart) -/
+def absOk2 (s : Schema) (o : Options) (ty : TypeId) (sub : List Sel) : Bool :=
+  sub.any isTypename &&
+  EnumSpec.nodup (respKeys s sub) &&
+  (vtsOfTy s ty).all (fun t => match t with | .object i => (s.objects[i]?).isSome | _ => false) &&
+  !(variantNames s o ty).isEmpty &&
+  EnumSpec.nodup (variantNames s o ty) &&
+  (sub.filterMap inlineTy).all (fun t => (vtsOfTy s ty).contains t) &&
+  sub.all (fun x => match x with
+    | .inline _ isub => (fieldKeys s isub).all (fun k => !(respKeys s sub).contains k)
+    | _ => true)
+
+/-- the parts of `absOk2`, in the shape of `absOk_parts` (the seventh is vacuous) -/
+theorem absOk2_parts {s : Schema} {o : Options} {ty : TypeId} {sub : List Sel} (h : absOk2 s o ty sub = true) :
+    sub.any isTypename = true ∧ EnumSpec.nodup (respKeys s sub) = true ∧
+    (∀ t ∈ vtsOfTy s ty, ∃ i, t = .object i ∧ (s.objects[i]?).isSome = true) ∧
+    (variantNames s o ty) ≠ [] ∧ (variantNames s o ty).Nodup ∧
+    (∀ t ∈ sub.filterMap inlineTy, t ∈ vtsOfTy s ty) ∧ True ∧
+    (∀ t isub, Sel.inline t isub ∈ sub → ∀ k ∈ fieldKeys s isub, k ∉ respKeys s sub) := by
+  simp only [absOk2, Bool.and_eq_true, List.all_eq_true, decide_eq_true_eq, Bool.not_eq_true',
+    List.isEmpty_eq_false_iff, List.contains_iff_mem] at h
+  obtain ⟨⟨⟨⟨⟨⟨h1, h2⟩, h3⟩, h4⟩, h5⟩, h6⟩, h8⟩ := h
+  refine ⟨h1, h2, ?_, h4, nodup_iff'.mp h5, h6, trivial, ?_⟩
+  · intro t ht
+    have := h3 t ht
+    cases t <;> simp only [Bool.false_eq_true] at this
+    exact ⟨_, rfl, this⟩
+  · intro t isub hm k hk
+    have := h8 _ hm
+    simp only [List.all_eq_true] at this
+    simpa using this k hk
+
+theorem absOk2_of_absOk {s : Schema} {o : Options} {ty : TypeId} {sub : List Sel} (h : absOk s o ty sub = true) :
+    absOk2 s o ty sub = true := by
+  simp only [absOk, Bool.and_eq_true] at h
+  simp only [absOk2, Bool.and_eq_true]
+  obtain ⟨⟨⟨⟨⟨⟨⟨h1, h2⟩, h3⟩, h4⟩, h5⟩, h6⟩, _⟩, h8⟩ := h
+  exact ⟨⟨⟨⟨⟨⟨h1, h2⟩, h3⟩, h4⟩, h5⟩, h6⟩, h8⟩
+
+/-- conditions at an abstract position: those of `absOk2`; every spread `spreadOkA` (part (a)) or `spreadOkB`
     (part (b)); the field keys selected on one variant pairwise distinct -/
 def absOkS (s : Schema) (q : Query) (o : Options) (ty : TypeId) (sub : List Sel) : Bool :=
-  absOk s o ty sub &&
+  absOk2 s o ty sub &&
   sub.all (fun x => match x with
     | .spread g => spreadOkA s q o ty sub g || spreadOkB s q o ty sub g
     | _ => true) &&
@@ -275,7 +315,7 @@ theorem not_recursive_of_fragOkB {s : Schema} {q : Query} {o : Options} {ty : Ty
 
 theorem absOkS_parts {s : Schema} {q : Query} {o : Options} {ty : TypeId} {sub : List Sel}
     (h : absOkS s q o ty sub = true) :
-    absOk s o ty sub = true ∧
+    absOk2 s o ty sub = true ∧
     (∀ g, Sel.spread g ∈ sub →
       (∃ vt f, vt ∈ vtsOfTy s ty ∧ fragOk s q o vt g = true ∧ q.fragments[g]? = some f ∧
         f.on = vt ∧ ∀ k ∈ fieldKeys s f.sels, k ∉ respKeys s sub) ∨
@@ -509,7 +549,7 @@ theorem spreadsA_abs {c : Ctx} {ty : TypeId} {sels : List Sel} (hty : absHyp c.s
   intro g hg
   obtain ⟨hok1, hsp, _⟩ := absOkS_parts hok
   rcases hsp g hg with ⟨vt, f, hvt, hfok, hf, hon, _⟩ | ⟨f, hfok, hf, hon, _⟩
-  · obtain ⟨_, _, hobj, _⟩ := absOk_parts hok1
+  · obtain ⟨_, _, hobj, _⟩ := absOk2_parts hok1
     obtain ⟨i, rfl, _⟩ := hobj vt hvt
     exact .inl ⟨_, f, hfok, hf, hon, obj_ne_abs hty i⟩
   · exact .inr ⟨f, hfok, hf, hon⟩
@@ -829,14 +869,14 @@ theorem stepQ1a (hM : ∀ ty vts, variantsOf c.s ty = .ok (some vts) → vts.len
     intro g hg
     subst hg
     obtain ⟨hok1, _, _⟩ := absOkS_parts hok
-    obtain ⟨htn, _⟩ := absOk_parts hok1
+    obtain ⟨htn, _⟩ := absOk2_parts hok1
     simp [isTypename] at htn
   rw [calcSelection.eq_3 _ _ _ _ _ _ hns]
   have hv : variantsOf c.s ty = .ok (some (vtsOfTy c.s ty)) := by
     apply variantsOf_abs
     cases ty <;> simp only [absHyp] at hty ⊢ <;> first | trivial | exact hty
   obtain ⟨hok1, _, _⟩ := absOkS_parts hok
-  obtain ⟨_, _, hobj, _, _, _, hnd, _⟩ := absOk_parts hok1
+  obtain ⟨_, _, hobj, _, _, _, hnd, _⟩ := absOk2_parts hok1
   have hspA := spreadsA_abs hty hok
   have hL := C02.length_le_selsSize sels
   have hvl := hM ty _ hv
